@@ -54,8 +54,8 @@ let cmd_span c =
        | None -> out ("ftree" ^ sfx) "ERR"
        | Some t -> out ("ftree" ^ sfx) (s_list s_onat t));
       (match mtab with
+       | None when nf > 80 -> out ("mftree" ^ sfx) "SKIP"
        | None -> out ("mftree" ^ sfx) "ERR"
-       | Some (mep, mpes) when nf > 80 -> out ("mftree" ^ sfx) "SKIP"
        | Some (mep, mpes) ->
          (match plaquette_spanning_tree (order_front choice) mep mpes with
           | None -> out ("mftree" ^ sfx) "ERR"
